@@ -123,6 +123,15 @@ func Start(t *testing.T, prop, leg string) *H {
 	return h
 }
 
+// MaxOps returns the bound on the number of drawn operations for a history:
+// q in the quick tier; in the thorough tier one case in four may be long.
+func MaxOps(t *rapid.T, q, long int) int {
+	if os.Getenv("VK_TIER") == "thorough" && rapid.IntRange(0, 3).Draw(t, "longHistory") == 0 {
+		return long
+	}
+	return q
+}
+
 // Thorough reports whether the thorough tier was requested.
 func (h *H) Thorough() bool { return h.Tier == "thorough" }
 
